@@ -37,7 +37,8 @@ NAMES = ['a', 'b', 'c', 'pkg_x', 'mod_y', '_p']
 
 def required_cells(tier):
     return ['resolve:found-module', 'resolve:found-package', 'resolve:absent', 'resolve:broken-chain',
-            'resolve:module-and-package', 'roundtrip', 'split', 'import', 'resolve:main-file']
+            'resolve:module-and-package', 'roundtrip', 'split', 'import', 'resolve:main-file',
+            'import:failing-leaves-syspath']
 
 
 def build(rng, root, uniq):
@@ -47,7 +48,10 @@ def build(rng, root, uniq):
         names = rng.sample(NAMES, rng.randint(1, 3))
         for n in names:
             n2 = n if depth > 0 else '%s_%s' % (n, uniq)
-            kind = rng.choice(['mod', 'pkg', 'nsdir', 'both', 'pkg_main'])
+            kind = rng.choice(['mod', 'pkg', 'nsdir', 'both', 'pkg_main', 'modraise'])
+            if kind == 'modraise':
+                with open(os.path.join(d, n2 + '.py'), 'w') as f:
+                    f.write('raise RuntimeError("XV_IMPORT_FAILS")\n')
             if kind in ('mod', 'both'):
                 with open(os.path.join(d, n2 + '.py'), 'w') as f:
                     f.write('NAME = %r\n' % n2)
@@ -166,6 +170,16 @@ def check_tree(ctx, idx, seed):
             d = [x for x in before.diff(after) if x[0] == 'sys.path']
             sys.path[:] = before.path
             ctx.event('imports_monitored')
+            raises = 'XV_IMPORT_FAILS' in open(got).read()
+            if raises:
+                if err is None:
+                    ctx.violation('import', 'importing a module that raises returned %r' % (mod,), case)
+                elif d:
+                    ctx.violation('import-syspath', 'a failing import_module_from_path(%r) left sys.path changed: %r' % (
+                        os.path.relpath(got, root), d), case)
+                else:
+                    ctx.cell('import:failing-leaves-syspath')
+                continue
             if err is not None:
                 ctx.violation('import', 'import_module_from_path(%r) raised %r; tree %r' % (
                     os.path.relpath(got, root), err, listing), case)
